@@ -116,7 +116,7 @@ type c14Run struct {
 type c14Case struct {
 	Kind   string   `json:"kind"` // "doc" | "plan"
 	Config mdConfig `json:"config"`
-	Doc    string   `json:"doc,omitempty"`
+	Doc    rawDoc   `json:"doc,omitempty"`
 	Plan   []int    `json:"plan,omitempty"` // units of 1024 bytes
 	K      int      `json:"k"`
 	Fail   string   `json:"fail"` // short | zero
@@ -154,7 +154,7 @@ func execC14(cs c14Case) (run c14Run, err error) {
 		rd := renderer.NewRenderer(renderer.WithNodeRenderers(util.Prioritized(html.NewRenderer(), 1000)))
 		call = func(w io.Writer) error { return rd.Render(w, nil, tree) }
 	} else {
-		key := cs.Config.String() + "|" + cs.Doc
+		key := cs.Config.String() + "|" + string(cs.Doc)
 		ent, ok := c14Cache[key]
 		if !ok {
 			ent.md = cs.Config.build()
@@ -250,7 +250,7 @@ func c14Desc(cs c14Case) string {
 	if cs.Kind == "plan" {
 		return fmt.Sprintf("Render of code strings of %v KiB into %s, destination fails (%s) at byte %d", cs.Plan, cs.Dest, cs.Fail, cs.K)
 	}
-	d := cs.Doc
+	d := string(cs.Doc)
 	if len(d) > 80 {
 		d = d[:80] + "…"
 	}
@@ -360,7 +360,7 @@ func runC14(c *Ctx) {
 			ks = append(ks, n-1, n)
 		}
 		for ki, k := range ks {
-			cs := c14Case{Kind: "doc", Config: cfg, Doc: d, K: k, Fail: []string{"short", "zero"}[(ki+di)%2], Dest: dests[(ki+di)%len(dests)], API: []string{"convert", "render"}[(ki/2+di)%2]}
+			cs := c14Case{Kind: "doc", Config: cfg, Doc: rawDoc(d), K: k, Fail: []string{"short", "zero"}[(ki+di)%2], Dest: dests[(ki+di)%len(dests)], API: []string{"convert", "render"}[(ki/2+di)%2]}
 			cases = append(cases, cs)
 		}
 	}
